@@ -207,8 +207,7 @@ public:
 
    virtual status_t TemplatedUnflatten(DataUnflattener &)
    {
-      MCRASH("Message::TagDataArray:Unflatten()  This method should never be called!");
-      return B_UNIMPLEMENTED;  // just to keep the compiler happy
+      return B_UNIMPLEMENTED;  // tags are never serialized:  a received field that claims this type is bad data, not a reason to crash
    }
 
    virtual uint32 TemplatedTypeCode() const {return B_TAG_TYPE;}
@@ -593,8 +592,7 @@ public:
 
    virtual status_t TemplatedUnflatten(DataUnflattener &)
    {
-      MCRASH("Message::PointerDataArray:Unflatten()  This method should never be called!");
-      return B_UNIMPLEMENTED;  // just to keep the compiler happy
+      return B_UNIMPLEMENTED;  // pointers are never serialized:  a received field that claims this type is bad data, not a reason to crash
    }
 
    virtual AbstractDataArrayRef Clone() const;
